@@ -162,7 +162,8 @@ func oneOpaqueEq(a, b []Int) (Bool, bool) {
 			p = i
 		}
 	}
-	if p < 0 || (a[p].X.Kind != "d" && a[p].X.Kind != "u") {
+	isFloat := p >= 0 && (a[p].X.Kind == "g" || a[p].X.Kind == "v")
+	if p < 0 || (a[p].X.Kind != "d" && a[p].X.Kind != "u" && !isFloat) {
 		return Bool{}, false
 	}
 	tail := len(a) - p - 1
@@ -180,10 +181,30 @@ func oneOpaqueEq(a, b []Int) (Bool, bool) {
 	if r.T == nil && !r.C {
 		return r, true
 	}
+	if isFloat {
+		if mid != 1 {
+			return Bool{}, false
+		}
+		return band(r, floatDigitEq(a[p].X, b[p])), true
+	}
 	if mid > 8 {
 		return Bool{}, false
 	}
 	return band(r, decimalEq(a[p].X, b[p:p+mid])), true
+}
+
+// floatDigitEq: the only one-byte %g renderings are the digits 0..9.
+func floatDigitEq(o *Opaque, y Int) Bool {
+	f, b := o.F.term().S, y.term().S
+	var alts []string
+	for d := 0; d <= 9; d++ {
+		c := fmt.Sprintf("(and (= %s %s) (fp.eq %s %s)", b, bvLit(uint64('0'+d), 8), f, fpLit(float64(d)))
+		if d == 0 {
+			c += " (not (fp.isNegative " + f + "))"
+		}
+		alts = append(alts, c+")")
+	}
+	return mkBoolT(&Term{S: "(or " + strings.Join(alts, " ") + ")"})
 }
 
 // bytesEq is piecewise equality of two strings.
@@ -211,6 +232,20 @@ func bytesEq(a, b []Int) Bool {
 	}
 	if len(b) == 1 && b[0].X != nil && (b[0].X.Kind == "d" || b[0].X.Kind == "u") && !hasOpaque(a) {
 		return decimalEq(b[0].X, a)
+	}
+	// a whole string that is one %g/%v float against a single plain byte:
+	// the only one-byte renderings are the digits 0..9 (of +0, 1, ... 9)
+	oneFloat := func(x, y []Int) (Bool, bool) {
+		if len(x) == 1 && x[0].X != nil && (x[0].X.Kind == "g" || x[0].X.Kind == "v") && len(y) == 1 && y[0].X == nil {
+			return floatDigitEq(x[0].X, y[0]), true
+		}
+		return Bool{}, false
+	}
+	if r, ok := oneFloat(a, b); ok {
+		return r
+	}
+	if r, ok := oneFloat(b, a); ok {
+		return r
 	}
 	// exactly one formatted integer inside one string, plain bytes in the
 	// other: the pieces around it align with both ends of the other string
